@@ -514,6 +514,29 @@ func ruleOvf(c *Ctx, pkgRel string, tableGuarded map[string]bool) *RuleResult {
 					}
 					continue
 				}
+				if cv, ok := in.(*ssa.Convert); ok && isInt(cv.Type()) && isInt(cv.X.Type()) {
+					// a signed value converted to an unsigned type keeps its meaning only if it is not negative
+					// (the package does its arithmetic in uint64 after checking its int arguments)
+					if _, isK := cv.X.(*ssa.Const); isK {
+						continue
+					}
+					if isUnsigned(cv.X.Type()) || !isUnsigned(cv.Type()) {
+						continue
+					}
+					v := P.poly(cv.X)
+					desc := c.srcAt(cv.Pos())
+					if desc == "" {
+						desc = valName(cv)
+					}
+					name := c.short(fn)
+					r.inst("%s: conversion %s of a signed value", name, desc)
+					okLo := P.Prove(v.scale(-1), b)
+					r.oblig(okLo)
+					if !okLo {
+						r.find(name+":conversion "+desc+" of a possibly negative value", c.instrPos(cv), "%s converts %s (%s) to %s without establishing that it is not negative: a negative value becomes a huge one and every overflow test made on the unsigned value is about a different number", name, P.showTerm(v), cv.X.Type(), cv.Type())
+					}
+					continue
+				}
 				bo, ok := in.(*ssa.BinOp)
 				if !ok || !isInt(bo.Type()) || intBits(bo.Type()) < 64 {
 					continue
